@@ -136,6 +136,8 @@ func Verif_C02_C_ApkPkginfo() {
 // Verif_C02_C_ArchPkginfo: the same for archlinux (.PKGINFO key = value lines).
 func Verif_C02_C_ArchPkginfo() {
 	m := scen.NewMeta()
+	rel := []string{"2", "0", "10"}[v.NondetChoice("release", 3)] // a numeric release is stated as it is, zero included
+	m.Info.Release = rel
 	var buf bytes.Buffer
 	err := Packager("archlinux").Package(m.Info, &buf)
 	v.Reach("C02.arch.ran")
@@ -152,7 +154,7 @@ func Verif_C02_C_ArchPkginfo() {
 	t := string(pk.Data)
 	verifKV1(t, "pkgname", m.Name, "arch-name")
 	verifKV1(t, "pkgbase", m.Name, "arch-pkgbase-defaults-to-name")
-	verifKV1(t, "pkgver", "1.2.3-2", "arch-version")
+	verifKV1(t, "pkgver", "1.2.3-"+rel, "arch-version")
 	verifKV1(t, "arch", "x86_64", "arch-architecture")
 	verifKV1(t, "pkgdesc", m.Desc, "arch-description")
 	verifKV1(t, "url", m.Homepage, "arch-homepage")
